@@ -1,9 +1,11 @@
 """C28 -- model loading errors point at the offending text.
 
-(M)    spec/LoaderRepo.tla over the family FamC28 (MC_LoaderRepo.tla): one offending text per scenario --
+(M)    spec/LoaderRepo.tla over the family FamC28 (EnumLoaderRepo.tla): one offending text per scenario --
        syntax error, unknown object, unresolvable postponed reference, non-unique name -- located in the
        main file, an imported file or a file imported by an imported file, x text layouts (empty lines,
-       indentation per file) x string / file loads x providers; invariant C28_Location (file of the
+       indentation per file) x single references / elements of a list reference with separator x
+       string / file loads x providers; duplicates living in a builtin model built from a string;
+       invariant C28_Location (file of the
        offending text, None for strings; its line and column in that file);
 (S->I) every scenario executed on the real loader; TextXError class/kind, filename, line, col compared;
 (I->S) seeded-random sessions with random layouts recorded and validated by TLC (TraceLoaderRepo.tla).
